@@ -26,22 +26,35 @@ into the sending method ("combined mode") - is still analysed; exit 2 only if no
   helpers referenced from nowhere else); _send_updated_target_power sends
   Request(power=<result of the one _calculate_target_power call for its own arguments>, same ids)
   iff that result is not None; _bounds_tracker has every received message in the cache when it
-  recomputes and reports; _send_reports computes regular statuses in the op-shifted bounds.
+  recomputes and reports; _send_reports computes regular statuses in the op-shifted bounds and serves each
+  subscription table from the resolver of the same group.  The interpreter gives meaning to methods of power
+  values (`isclose` = forked fact), `Power.zero()`, `min`/`max`/`abs`, scaling and comparisons of linear
+  combinations, so a power that is adjusted after the sum was formed (pushed out of the exclusion zone,
+  clamped, scaled) is reported as "not the computed target", not as unreadable code.
+* Reported target (check_reported_target): the `target_power` of every _Report built by Matryoshka.get_status,
+  evaluated by the resolver interpreter (with the statements that define its locals) over bucket absent /
+  empty / non-empty x stored target absent / present, is the stored target in every reachable state.
+* Group naming (check_group_naming): a group is (component ids, operating-point flag).  Every class of the
+  package that builds both a proposal and a report subscription passes the flag explicitly and takes flag and
+  component ids of the subscription from the same source as those of its proposals (dataflow through locals
+  and helper parameters); the event loop files a subscription in the table its flag names.
 """
 from __future__ import annotations
 
 import ast
-from typing import Any
+from typing import Any, cast
 
-from ..engine.absint import Obj
+from ..engine.absint import Infeasible, Obj
 from ..engine.cfg import CFG
 from ..engine.normalize import ANCHOR_NAMES, inline_helpers, normalize, positional
 from ..engine.report import AnalysisError, Run
 from ..engine.resolver import ClassInfo, FuncInfo, Program
 from ..engine.util import method_call, nodes_with_call, normal_edge, u
-from ._c11_util import (ALGO, BUCKETS_ATTR, MATRYOSHKA, REQ_SENDER_ATTR, STORE_ATTR, ActorInterp, Flag, ResolverInterp,
-                        Sym, dataclass_fields, foreign_attr_ref, is_empty_mapping, is_shift, lin_of, mapping_uses,
-                        opaque_for, reachable_methods, resolve_roles, self_attr_ref, structural_controls)
+from ._c11_util import (ALGO, BUCKETS_ATTR, FLAG_ATTR, GROUP_KEY, MATRYOSHKA, REQ_SENDER_ATTR, STORE_ATTR, SUBS_ATTRS,
+                        ActorInterp, Flag, ResolverInterp, Sym, canonical_source, construction_sites, dataclass_fields,
+                        foreign_attr_ref, group_message_classes, is_empty_mapping, is_shift, lin_of, mapping_uses,
+                        message_args, opaque_for, reachable_methods, resolve_roles, self_attr_ref,
+                        structural_controls, table_choices)
 
 ACTOR = "microgrid._power_managing._power_managing_actor:PowerManagingActor"
 MODULE = "microgrid._power_managing._power_managing_actor"
@@ -383,13 +396,92 @@ def check_reported_target(run: Run, prog: Program) -> None:
             raise AnalysisError(f"{gs0.qual}: positional _Report(...) but the class is not resolved")
         val = positional(call, fields).get("target_power")
         ok = val is not None and _is_stored_target(val, ids)
-        if not ok and val is not None and "_target_power" in u(val):
-            raise AnalysisError(f"{gs0.qual}: report target `{u(val)}` reads the stored target in a form that "
-                                "is not recognised")
+        why = ""
+        if not ok and val is not None:
+            # not the plain look-up: decide by evaluating the expression in every state of the group
+            pre = _defining_statements(gs.node, call, val)
+            try:
+                wrong = _report_target_mismatches(prog, cls, gs0, val, pre)
+            except AnalysisError as exc:
+                text = u(val) + " ".join(u(x) for x in pre)
+                if "_target_power" in text or "get_target_power" in text:
+                    raise AnalysisError(f"{gs0.qual}: report target `{u(val)}` reads the stored target in a form "
+                                        f"that is not recognised ({exc})") from None
+                wrong = [("it is not a read of the stored target", None, None)]
+            ok = not wrong
+            if wrong:
+                state, got, want = wrong[0]
+                why = (f" - {state}" if got is None and want is None else
+                       f" - in the state ({state}) the report says `{got!r}` while the stored target is `{want!r}`: "
+                       "the stored target is what get_target_power answers, i.e. what the request in force contains "
+                       "and what the other group is shifted by, until the next recalculation replaces it (expired "
+                       "proposals only empty the bucket).  A report that hides it while the bucket is empty, or "
+                       "substitutes a default, makes reported regular + reported operating-point target differ from "
+                       "the request on every report-only event (a distribution result) in between")
         run.check(ok, "C11.REQ", gs0.qual, f"_Report(target_power={u(val)})",
-                  f"the report tells the actors the target `{u(val)}`, not the group's stored target "
-                  "(self._target_power.get(component_ids)) that the manager adds to the request",
+                  f"the report tells the actors the target `{u(val)}`, not in every state the group's stored target "
+                  f"(self._target_power.get(component_ids)) that the manager adds to the request{why}",
                   node=call, file=gs0.file, instance=f"report target is the stored target (line {call.lineno})")
+
+
+def _defining_statements(fn: ast.AST, site: ast.AST, expr: ast.AST) -> list[ast.stmt]:
+    """Backward slice: the statements that precede `site` in its own and in the enclosing blocks and assign a
+    local name the expression depends on (transitively), in source order.  (Conditions of the enclosing
+    statements are not part of it: the value is judged for every state, not only for those reaching the site.)"""
+    from ..engine.resolver import parent_map
+
+    parents = parent_map(fn)
+    needed = {n.id for n in ast.walk(expr) if isinstance(n, ast.Name) and isinstance(n.ctx, ast.Load)}
+    found: list[ast.stmt] = []
+    node: ast.AST = site
+    while node is not fn and node in parents:
+        parent = parents[node]
+        for field in ("body", "orelse", "finalbody"):
+            block = getattr(parent, field, None)
+            if isinstance(block, list) and any(b is node for b in block):
+                idx = next(i for i, b in enumerate(block) if b is node)
+                for st in reversed(block[:idx]):
+                    stores = {x.id for x in ast.walk(st) if isinstance(x, ast.Name)
+                              and isinstance(x.ctx, (ast.Store, ast.Del))}
+                    if stores & needed:
+                        found.append(st)
+                        needed |= {x.id for x in ast.walk(st) if isinstance(x, ast.Name) and isinstance(x.ctx, ast.Load)}
+        node = parent
+    return list(reversed(found))
+
+
+def _report_target_mismatches(prog: Program, cls: ClassInfo, gs: FuncInfo, expr: ast.AST,
+                              pre: list[ast.stmt] | None = None) -> list[tuple[str, Any, Any]]:
+    """The report's target expression (after the statements `pre` that define the locals it uses) evaluated by
+    the resolver interpreter over bucket absent / empty / non-empty x stored target absent / present (the other
+    parameters of get_status are opaque values): the states in which it is not the stored target, as
+    (state, value, stored)."""
+    interp = ResolverInterp(prog, cls)
+    fn = ast.FunctionDef(name="_report_target", args=gs.node.args, body=[*(pre or []), ast.Return(value=cast(ast.expr, expr))],
+                         decorator_list=[], returns=None, type_comment=None, type_params=[])
+    ast.copy_location(fn, gs.node)
+    ast.copy_location(fn.body[-1], expr)
+    params = gs.params[1:]
+
+    def make_args() -> dict[str, Any]:
+        interp.ids = Sym("ids")
+        interp.bucket = ("absent", "empty", "nonempty")[interp.choose(3, "bucket absent/empty/non-empty")]
+        if interp.choose(2, "a target is stored") == 1:
+            interp.stored = Sym("stored_target")
+        interp.inputs = {"stored": interp.stored, "bucket": interp.bucket}
+        if interp.bucket == "absent" and interp.stored is not None:
+            raise Infeasible()  # only the recalculation stores a target, and it needs the bucket (who-may-write rule)
+        return interp.bind_args(fn, [interp.ids] + [Sym(p) for p in params[1:]], {}, self_value=Obj("self"))
+
+    wrong: list[tuple[str, Any, Any]] = []
+    for out in interp.explore(fn, make_args):
+        want = out.state["inputs"]["stored"]
+        if not (out.kind == "return" and out.value is want):
+            state = f"bucket {out.state['inputs']['bucket']}; " + ("a target is stored" if want is not None
+                                                                    else "no target stored")
+            wrong.append((state, out.value if out.kind == "return" else f"raise {out.value}", want))
+    wrong.sort(key=lambda w: (w[2] is None, not w[0].startswith("bucket empty")))  # a hidden stored target first
+    return wrong
 
 
 def _recalculation_methods(prog: Program, cls: ClassInfo, root: FuncInfo, opaque: set[str]) -> set[str]:
@@ -590,6 +682,7 @@ def check_req(run: Run, prog: Program, roles: Roles) -> None:
     check_bounds_tracker(run, prog, cls, roles)
     check_reports(run, prog, cls, roles)
     check_run(run, prog, cls, roles)
+    check_group_naming(run, prog, cls, roles)
 
 
 def check_run(run: Run, prog: Program, cls: ClassInfo, roles: Roles) -> None:
@@ -677,9 +770,18 @@ def check_send_updated(run: Run, prog: Program, cls: ClassInfo, roles: Roles) ->
             r = e["value"]
             ok = isinstance(r, Obj) and r.cls == "Request" and result is not None \
                 and r.fields.get("power") is result and r.fields.get("component_ids") is inp["ids"]
+            carried = r.fields.get("power") if isinstance(r, Obj) else None
+            adjusted = (isinstance(r, Obj) and r.cls == "Request" and result is not None and carried is not result
+                        and r.fields.get("component_ids") is inp["ids"])
             run.check(ok, "C11.REQ", su.qual, "Request(power=target_power, component_ids=component_ids)",
-                      f"the request sent is `{r!r}`: not built from the computed target power / the "
-                      f"same component ids ({desc})", node=e["node"], file=su.file,
+                      (f"the power put into the request is `{carried!r}`, not the value `{result!r}` that "
+                       f"{roles['calc'].name} returned for this call (= regular target + operating-point target): a "
+                       "power that is adjusted after the sum was formed (moved out of the exclusion zone, clamped, "
+                       "rounded, scaled, replaced by a bound) is no longer the sum of the two targets the groups "
+                       "store and report - the reports keep showing the unadjusted targets"
+                       if adjusted else
+                       f"the request sent is `{r!r}`: not built from the computed target power / the "
+                       "same component ids") + f" ({desc})", node=e["node"], file=su.file,
                       instance=f"request carries the computed power for the same ids: {desc}")
     if n_sent < 1 or len(outs) < 2:
         raise AnalysisError(f"{su.qual}: no abstract path sends a request")
@@ -771,6 +873,7 @@ def check_reports(run: Run, prog: Program, cls: ClassInfo, roles: Roles) -> None
     outs = interp.explore(sr.node, make_args)
     construct = "regular reports use bounds shifted by the operating-point target"
     seen = {"op": 0, "reg": 0}
+    crossed = False
     for out in outs:
         desc = _desc(out)
         if out.kind != "return":
@@ -797,6 +900,18 @@ def check_reports(run: Run, prog: Program, cls: ClassInfo, roles: Roles) -> None
                        "their target is computed in")
             run.check(ok, "C11.REQ", sr.qual, construct, f"{why} ({desc})", node=e["node"],
                       file=sr.file, instance=f"{e['group']} status bounds: {desc}")
+        # each table is served from the resolver of the same group
+        for e in out.state["events"]:
+            snd, val = e.get("sender"), e.get("value")
+            if e["kind"] == "report" and isinstance(snd, Obj) and snd.cls == "Sender" \
+                    and isinstance(val, Obj) and val.cls == "Report":
+                names = {"op": "operating-point", "reg": "regular"}
+                crossed = crossed or snd.fields["group"] != val.fields["group"]
+                run.check(snd.fields["group"] == val.fields["group"], "C11.REQ", sr.qual, e["node"],
+                          f"the {names[snd.fields['group']]} subscribers are sent the status of the "
+                          f"{names[val.fields['group']]} group: the target they are told is not the target of the "
+                          f"group their proposals are routed to ({desc})", node=e["node"], file=sr.file,
+                          instance=f"{snd.fields['group']} subscribers get the {snd.fields['group']} status: {desc}")
         # subscribers present and bounds cached -> a status is produced for them, whatever the
         # cached bounds contain (the resolvers handle missing inclusion bounds themselves)
         inp = out.state["inputs"]
@@ -820,8 +935,116 @@ def check_reports(run: Run, prog: Program, cls: ClassInfo, roles: Roles) -> None
                           f"request is recomputed ({desc})",
                           node=last["node"] if last is not None and last["node"] is not None else sr.node,
                           file=sr.file, instance=f"{g} subscribers get a status: {desc}")
-    if not seen["op"] or not seen["reg"]:
+    if (not seen["op"] or not seen["reg"]) and not crossed:
         raise AnalysisError(f"{sr.qual}: get_status of both groups not reached ({seen})")
+
+
+def check_group_naming(run: Run, prog: Program, cls: ClassInfo, roles: Roles) -> None:
+    """Who is told which target.  A group is named by (component ids, operating-point flag).  The manager routes
+    a proposal to the resolver its flag names (decided with the sum) and files a report subscription in the
+    table the subscription's flag names; _send_reports serves each table from the resolver of the same group.
+    So an actor is told the target of the group its proposals go to only if
+
+      (a) on the client side, every class that builds both messages names the same group in both: the flag and
+          the component ids of each subscription come from the same source as those of its proposals, and are
+          given explicitly (a default files the actor with the regular group whatever its proposals say);
+      (b) in the event loop, the table is chosen by the subscription's flag, the operating-point table exactly
+          where the flag is true."""
+    proposal_cls, sub_classes = group_message_classes(prog)
+    sites = construction_sites(prog, [proposal_cls, *sub_classes])
+    units: dict[str, list[tuple[FuncInfo, ast.Call, ClassInfo]]] = {}
+    for fi, call, c in sites:
+        units.setdefault(fi.cls.qual if fi.cls is not None else fi.qual, []).append((fi, call, c))
+    n_paired = 0
+    for unit, group in sorted(units.items()):
+        read = [(fi, call, c, message_args(call, c, fi.qual)) for fi, call, c in group]
+        for fi, _call, _c, _a in read:
+            run.analysed(fi.qual)
+        for fi, call, c, args in read:  # explicit flag on every message
+            kind = "proposal" if c is proposal_cls else "report subscription"
+            run.check(FLAG_ATTR in args, "C11.REQ", fi.qual, call,
+                      f"this {kind} ({c.name}) is built without `{FLAG_ATTR}`: the manager then takes the default - "
+                      + ("the actor's reports are filed with the regular subscribers and carry the regular group's "
+                         "target (in bounds shifted by the operating-point target), whatever group its proposals "
+                         "are routed to; an operating-point actor is never told the operating-point target, so the "
+                         "request differs from reported regular + reported operating-point target"
+                         if c is not proposal_cls else
+                         "the proposal is routed to the regular resolver although the actor's reports may be "
+                         "served from the other group")
+                      + ".  The flag must be passed explicitly, from the same source in proposals and subscriptions",
+                      node=call, file=fi.file, instance=f"{FLAG_ATTR} given explicitly: {fi.qual} line {call.lineno}")
+        props = [r for r in read if r[2] is proposal_cls]
+        subs = [r for r in read if r[2] is not proposal_cls]
+        for sfi, scall, sc, sargs in subs:
+            for pfi, pcall, _pc, pargs in props:
+                for field in GROUP_KEY:
+                    if field not in sargs or field not in pargs:
+                        continue  # reported above (flag) / not a group-naming message
+                    s_src = canonical_source(prog, sfi, sargs[field])
+                    p_src = canonical_source(prog, pfi, pargs[field])
+                    n_paired += 1
+                    run.check(s_src == p_src, "C11.REQ", sfi.qual, scall,
+                              f"the {sc.name} built here names its group with {field}=`{s_src}` while the proposals "
+                              f"of the same class ({pfi.name}, line {pcall.lineno}) use {field}=`{p_src}`: the "
+                              "manager files the subscription under the group this message names and routes the "
+                              "proposals to the group those name, so the actor can be told another group's target "
+                              "(e.g. an operating-point actor the regular target) - the request is then not the sum "
+                              "of the targets reported to the regular and to the operating-point actors",
+                              node=scall, file=sfi.file,
+                              instance=f"{unit}: subscription line {scall.lineno} and proposal line {pcall.lineno} "
+                                       f"agree on {field}")
+    if n_paired < 2:
+        raise AnalysisError("C11.REQ: no class builds both a proposal and a report subscription - the client side "
+                            "of the group naming was not found")
+    # ---- (b) the event loop files a subscription in the table its flag names
+    rn = roles["run"]
+    stop = {fi.name for r, fi in roles.items() if r != "run"}
+    n_choice = n_loose_writes = 0
+    for fi in reachable_methods(prog, cls, rn, stop):
+        for ch in table_choices(fi.node):
+            node = ch["node"]
+            if ch.get("loose"):
+                stored = _is_table_write(fi.node, node)
+                n_loose_writes += 1 if stored else 0
+                run.check(not stored, "C11.REQ", fi.qual, node,
+                          f"a subscription is written into self.{node.attr} outside any test of the subscription's "
+                          f"`{FLAG_ATTR}`: it is filed there whatever group the actor's proposals are routed to",
+                          node=node, file=fi.file, instance=f"{fi.qual}: table reference line {node.lineno}")
+                continue
+            n_choice += 1
+            wrong = [x for x in ch["when_op"] if SUBS_ATTRS[x.attr] != "op"] + \
+                    [x for x in ch["when_reg"] if SUBS_ATTRS[x.attr] != "reg"]
+            test = node.test
+            run.check(not wrong, "C11.REQ", fi.qual, test,
+                      "the subscription table is chosen against the subscription's flag"
+                      + (f" (self.{wrong[0].attr} where `{FLAG_ATTR}` is "
+                         f"{'true' if wrong[0] in ch['when_op'] else 'false'})" if wrong else "")
+                      + ": operating-point actors are served the regular group's status by _send_reports and "
+                      "regular actors the operating-point group's - the targets reported to the two kinds of actors "
+                      "are exchanged / one of them is never reported, and no longer add up to the request",
+                      node=wrong[0] if wrong else node, file=fi.file,
+                      instance=f"{fi.qual}: table chosen by the flag (line {node.lineno})")
+    if n_choice == 0 and not n_loose_writes:
+        raise AnalysisError(f"{rn.qual}: the choice of the subscription table by the subscription's `{FLAG_ATTR}` "
+                            "was not found (no conditional on the flag names the tables)")
+
+
+def _is_table_write(fn: ast.AST, ref: ast.Attribute) -> bool:
+    """Entries are written into the table through this reference (directly or through a local name bound to it:
+    `t = self.T; t[ids] = {...}; t[ids][priority] = ...; t.setdefault(...)`)."""
+    if any(use["kind"] in ("set", "remove", "rebind") for use in mapping_uses(fn, lambda n: n is ref)):
+        return True
+    # an inner entry: self.T[ids][priority] = sender (a look-up of the table, then a store)
+    aliases = {t.id for n in ast.walk(fn) if isinstance(n, ast.Assign) and n.value is ref
+               for t in n.targets if isinstance(t, ast.Name)}
+    for n in ast.walk(fn):
+        if isinstance(n, ast.Subscript) and isinstance(n.ctx, ast.Store):
+            base: ast.AST = n.value
+            while isinstance(base, ast.Subscript):
+                base = base.value
+            if base is ref or (isinstance(base, ast.Name) and base.id in aliases):
+                return True
+    return False
 
 
 CONTROLS = [
@@ -856,6 +1079,30 @@ CONTROLS = [
      "            for proposal in to_delete:\n                bucket.remove(proposal)\n",
      "            for proposal in to_delete:\n                bucket.remove(proposal)\n"
      "            if not bucket:\n                self._target_power.clear()\n", "C11.SUM"),
+    ("request power adjusted after the sum", "microgrid._power_managing._power_managing_actor",
+     "                    power=target_power,\n",
+     "                    power=(target_power if self._system_bounds[component_ids].exclusion_bounds is None else "
+     "max(target_power, self._system_bounds[component_ids].exclusion_bounds.upper)),\n", "C11.REQ"),
+    ("report hides the stored target of an emptied bucket", "microgrid._power_managing._matryoshka",
+     "            target_power=target_power,\n            _inclusion_bounds=timeseries.Bounds",
+     "            target_power=(target_power if self._component_buckets.get(component_ids) else None),\n"
+     "            _inclusion_bounds=timeseries.Bounds", "C11.REQ"),
+    ("subscription built without the operating-point flag", "timeseries.battery_pool._battery_pool",
+     "            component_ids=self._pool_ref_store._batteries,\n"
+     "            set_operating_point=self._set_operating_point,\n        )\n        self._pool_ref_store._power_bounds_subs",
+     "            component_ids=self._pool_ref_store._batteries,\n        )\n        self._pool_ref_store._power_bounds_subs",
+     "C11.REQ"),
+    ("subscription flag not from the source of the proposals' flag", "timeseries.battery_pool._battery_pool",
+     "            component_ids=self._pool_ref_store._batteries,\n"
+     "            set_operating_point=self._set_operating_point,\n        )\n        self._pool_ref_store._power_bounds_subs",
+     "            component_ids=self._pool_ref_store._batteries,\n"
+     "            set_operating_point=False,\n        )\n        self._pool_ref_store._power_bounds_subs",
+     "C11.REQ"),
+    ("subscription tables exchanged", "microgrid._power_managing._power_managing_actor",
+     "                    self._set_op_power_subscriptions\n                    if set_operating_point\n"
+     "                    else self._set_power_subscriptions\n",
+     "                    self._set_power_subscriptions\n                    if set_operating_point\n"
+     "                    else self._set_op_power_subscriptions\n", "C11.REQ"),
 ]
 
 
@@ -878,8 +1125,10 @@ def check(run: Run, prog: Program, tier: str) -> str:
              "second-computed group by the system bounds shifted by the "
              "first group's current target; _calculate_shifted_bounds shifts both inclusion "
              "bounds alike and passes exclusion bounds through")
-    run.rule("C11.REQ", "requests are built only from that result; new bounds are stored before "
-             "recomputing; regular reports use the op-shifted bounds")
+    run.rule("C11.REQ", "requests are built only from that result (no adjustment after the sum); new bounds are "
+             "stored before recomputing; regular reports use the op-shifted bounds; every report carries the group's "
+             "stored target in every state; a subscription names the same group (component ids, operating-point "
+             "flag) as the proposals of the class that builds it and is filed and served under that group")
     run_rules(run, prog)
     run.floor("C11.SUM", 30)
     run.floor("C11.SHIFT", 20)
@@ -902,4 +1151,7 @@ def check(run: Run, prog: Program, tier: str) -> str:
             "the sum and shift rules. _calculate_shifted_bounds, _send_updated_target_power, "
             "_bounds_tracker and _send_reports are interpreted in the same symbolic domain "
             "(private helpers followed, values bound by dataflow); who-may-construct rule for "
-            "Request / the requests sender over the whole class.")
+            "Request / the requests sender over the whole class. The reported target of get_status is evaluated "
+            "over the resolver's states; the group named by report subscriptions is compared by dataflow with the "
+            "group named by the proposals of the same client class (all pools), and the subscription table chosen "
+            "in the event loop with the flag it is chosen by.")
